@@ -119,8 +119,7 @@ def shards(tier, seed):
                     out.append(('exh', op, si, ch, nch, tier))
     for op in OP_ORDER:
         out.append(('real', op, tier))
-    for op in ('add', 'sub', 'mul', 'div', 'fma', 'pow', 'copysign', 'neg', 'abs', 'ceil', 'floor', 'trunc', 'roundint', 'nearbyint',
-               'sqrt', 'fmod'):
+    for op in OP_ORDER:
         out.append(('nd', op, tier))
     nh = 64 if T else 24
     out += [('hyp', i, tier, seed) for i in range(nh)]
@@ -259,7 +258,7 @@ def engine_path(op, m, dens):
 # one evaluation
 
 def evaluate(res: Result, op, ctx, m, label, dens, cars, ex=None, extra_classes=(), nt_key=None, sample_every=9973,
-             precl=None):
+             precl=None, objs=None):
     """Runs fpy2.ops.<op>(*operands, ctx=ctx) and compares with the oracle.  `ex` may carry the
     precomputed O.Exact record for (op, dens, m.rm)."""
     info = O.OPS[op]
@@ -271,7 +270,8 @@ def evaluate(res: Result, op, ctx, m, label, dens, cars, ex=None, extra_classes=
     else:
         o = O.round_exact(m, ex)
     exr = o.exact
-    objs = [make_obj(d, c) for d, c in zip(dens, cars)]
+    if objs is None:
+        objs = [make_obj(d, c) for d, c in zip(dens, cars)]
     fn = getattr(fp.ops, info.fpy)
     try:
         r, exc = fn(*objs, ctx=ctx), None
@@ -333,11 +333,9 @@ def evaluate(res: Result, op, ctx, m, label, dens, cars, ex=None, extra_classes=
         chk_flags = info.family != 'rint' or op == 'nearbyint'
         why = check_outcome(o, gd, r.inexact if chk_flags else o.inexact, r.overflow if chk_flags else o.overflow)
         got = {'value': show(gd), 'inexact': r.inexact, 'overflow': r.overflow}
-        if why is None and not special and isinstance(gd, Fraction) or gd in (PZERO, NZERO):
-            pass
         if why is None:
             # invalid / divzero as documented in ops._normalize: counted, not judged
-            if m.kind != 'real' and info.family != 'rint':
+            if m.kind in ('mp', 'mps') and info.family != 'rint':
                 if gd == NAN and bool(r.invalid) != bool(o.op_invalid):
                     res.count(f'note: invalid flag differs from IEEE ({op})')
                 if gd in (PINF, NINF) and bool(r.divzero) != bool(o.op_divzero):
@@ -451,8 +449,9 @@ def run_exh(res: Result, op, si, ch, nch, tier):
                 precl = classify(m0, ex_any.values[0])
             elif op != 'nearbyint':
                 precl = (False, [])
+            objs = [make_obj(d, c) for d, c in zip(t, cars)]
             for ctx, m, label in modes:
-                evaluate(res, op, ctx, m, label, t, cars, ex=ex_rtn if m.rm == 'RTN' else ex_any, precl=precl)
+                evaluate(res, op, ctx, m, label, t, cars, ex=ex_rtn if m.rm == 'RTN' else ex_any, precl=precl, objs=objs)
 
 
 def run_real(res: Result, op, tier):
@@ -472,35 +471,52 @@ def run_real(res: Result, op, tier):
         evaluate(res, op, ctx, m, label, t, pick_carriers(t, ti), sample_every=997)
 
 
+DYADIC_FRACTIONS = [Fraction(3, 4), Fraction(-5, 2), Fraction(3), Fraction(0)]
+
+
 def run_nd(res: Result, op, tier):
-    """Tuples with at least one non-dyadic rational operand (exact-rational engine) under every target."""
+    """Operand tuples with at least one `Fraction` carrier (non-dyadic: exact-rational engine; dyadic:
+    converted on entry) combined with every member of the small source incl. +-0, +-inf, NaN as
+    Float/float operands, in every argument position, under every target."""
     specs = target_specs()
     ar = O.ARITY[op]
     B = src_values(2, 5) if tier != 'thorough' else src_values(3, 6)
-    ND = NONDYADIC
+    FR = [(q if q != 0 else PZERO, 'Fraction') for q in NONDYADIC + DYADIC_FRACTIONS]
+    BA = [(d, ('Float', 'float')[i % 2]) for i, d in enumerate(B)]
     if ar == 1:
-        tuples = [(a,) for a in ND]
+        tuples = [(a,) for a in FR]
     elif ar == 2:
-        tuples = [(a, b) for a in ND for b in B] + [(b, a) for a in ND for b in B] + [(a, b) for a in ND for b in ND]
-        if op == 'pow':
-            tuples = [(a, b) for a in ND for b in B]
+        tuples = [(a, b) for a in FR for b in BA] + [(b, a) for a in FR for b in BA] + [(a, b) for a in FR for b in FR]
     else:
-        Z = [PZERO, NZERO, PINF, NAN, Fraction(1), Fraction(-3, 2), Fraction(1, 4), Fraction(-3)]
-        tuples = [(a, b, c) for a in ND[:3] for b in Z + ND[:2] for c in Z + ND[:3]]
-        tuples += [(b, a, c) for a in ND[:2] for b in Z for c in Z + ND[:1]]
-        tuples += [(b, c, a) for a in ND[:2] for b in Z for c in Z]
-        tuples += [(a, 1 / a, Fraction(-1)) for a in ND] + [(a, Fraction(3), -3 * a) for a in ND]
+        Z = [(d, 'Float') for d in (PZERO, NZERO, PINF, NINF, NAN, Fraction(1), Fraction(-3, 2), Fraction(1, 4), Fraction(-3))]
+        F3, F2 = FR[:3] + FR[5:7], FR[:2] + FR[5:6]
+        tuples = [(a, b, c) for a in F3 for b in Z + F2 for c in Z + F3]
+        tuples += [(b, a, c) for a in F2 for b in Z for c in Z + F2[:1]]
+        tuples += [(b, c, a) for a in F2 for b in Z for c in Z]
+        tuples += [((a, 'Fraction'), (1 / a, 'Fraction'), (Fraction(-1), 'Float')) for a in NONDYADIC]
+        tuples += [((a, 'Fraction'), (Fraction(3), 'Float'), (-3 * a, 'Fraction')) for a in NONDYADIC]
     for sj, spec in enumerate(specs):
         modes = build_modes(spec)
-        for ti, t in enumerate(tuples):
+        if not modes:
+            continue
+        m0 = modes[0][1]
+        for ti, tc in enumerate(tuples):
+            t = tuple(d for d, _ in tc)
+            cars = [c for _, c in tc]
             ex_any = O.ref(op, t, 'RNE')
             if ex_any is None:
                 res.skip('no exact reference (pow with non-integer exponent)', len(modes))
                 continue
             ex_rtn = O.ref(op, t, 'RTN')
-            cars = [carriers_for(d)[0] for d in t]
+            precl = None
+            if op != 'nearbyint':
+                precl = (False, [])
+                if len(ex_any.values) == 1 and isinstance(ex_any.values[0], (Fraction, O.Root)):
+                    precl = classify(m0, ex_any.values[0])
+            objs = [make_obj(d, c) for d, c in zip(t, cars)]
             for ctx, m, label in modes:
-                evaluate(res, op, ctx, m, label, t, cars, ex=ex_rtn if m.rm == 'RTN' else ex_any, sample_every=1499)
+                evaluate(res, op, ctx, m, label, t, cars, ex=ex_rtn if m.rm == 'RTN' else ex_any, sample_every=1499,
+                         extra_classes=('fraction-carrier',), precl=precl, objs=objs)
 
 
 # ---------------------------------------------------------------------------
@@ -543,7 +559,7 @@ def hyp_target(kind, a, b, c, rm, ov):
         nmin = a % 260 - 200
         return ('mpbfixed', (nmin, (1 + b % (1 << 40)) * pow2(nmin + 1)), dict(rm=rm, overflow=ov))
     if kind == 'fixed':
-        return ('fixed', (bool(a & 1), b % 80 - 60, 2 + c % 30), dict(rm=rm, overflow=ov))
+        return ('fixed', (bool(a & 1), b % 80 - 60, 2 + c % 13), dict(rm=rm, overflow=ov))
     if kind == 'real':
         return ('real', (), {})
     raise ValueError(kind)
